@@ -1063,6 +1063,14 @@ func sprintf(st funcGen.Stack[Value], cs []Value) (Value, error) {
 	}
 }
 
+// appendUnique adds a key to a map like put does: a key that is already present is an error.
+func appendUnique(m Map, key string, v Value) (Value, error) {
+	if _, ok := m.Get(key); ok {
+		return nil, fmt.Errorf("key '%s' already present in map", key)
+	}
+	return NewMap(AppendMap{key: key, value: v, parent: m}), nil
+}
+
 func createLowPass(st funcGen.Stack[Value], store []Value) (Value, error) {
 	var name string
 	if n, ok := st.Get(0).(String); ok {
@@ -1105,7 +1113,7 @@ func createLowPass(st funcGen.Stack[Value], store []Value) (Value, error) {
 			a := math.Exp(-dt / tau)
 			yn := y*a + x*(1-a)
 			m, _ := p1.ToMap()
-			return NewMap(AppendMap{key: name, value: Float(yn), parent: m}), nil
+			return appendUnique(m, name, Float(yn))
 		},
 		Args:   3,
 		IsPure: true,
@@ -1118,7 +1126,7 @@ func createLowPass(st funcGen.Stack[Value], store []Value) (Value, error) {
 				return nil, err
 			}
 			m, _ := p0.ToMap()
-			return NewMap(AppendMap{key: name, value: x, parent: m}), nil
+			return appendUnique(m, name, x)
 		},
 		Args:   1,
 		IsPure: true,
